@@ -327,6 +327,10 @@ def write_evidence(prop, tier, master, tot, wall, wall_runs, nviol, replays, n_f
           ]}
     with open(os.path.join(HERE, "evidence", prop + ".json"), "w") as f:
         json.dump(ev, f, indent=1, default=str, sort_keys=True)
+    if tier == "thorough":      # kept beside the per-change evidence, which quick runs rewrite
+        os.makedirs(os.path.join(HERE, "evidence", "thorough"), exist_ok=True)
+        with open(os.path.join(HERE, "evidence", "thorough", prop + ".json"), "w") as f:
+            json.dump(ev, f, indent=1, default=str, sort_keys=True)
 
 
 def selftest_determinism(n, workers):
